@@ -2062,6 +2062,19 @@ func (db *DB) CommitJournal(ctx context.Context, mode JournalMode) (err error) {
 			pgnos = append(pgnos, pgno)
 		}
 	}
+
+	// SQLite does not write every page of a database that grows: a page that
+	// is allocated and freed again within the transaction (a free-list leaf)
+	// is skipped and the file system fills the gap with zeros. Such a page is
+	// part of the database from this transaction on, so it is part of the
+	// transaction file and of the checksum as well.
+	unwritten := make(map[uint32]struct{})
+	for pgno := prevPageN + 1; pgno <= commit && pgno != 0; pgno++ {
+		if _, ok := db.dirtyPageSet[pgno]; !ok {
+			pgnos = append(pgnos, pgno)
+			unwritten[pgno] = struct{}{}
+		}
+	}
 	sort.Slice(pgnos, func(i, j int) bool { return pgnos[i] < pgnos[j] })
 
 	// Open file descriptors for the header & page blocks for new LTX file.
@@ -2120,13 +2133,16 @@ func (db *DB) CommitJournal(ctx context.Context, mode JournalMode) (err error) {
 		}
 
 		// Verify updated page matches in-memory checksum.
+		bufChksum := ltx.ChecksumPage(pgno, buf)
 		db.chksums.mu.Lock()
+		if _, ok := unwritten[pgno]; ok {
+			db.setDatabasePageChecksum(pgno, bufChksum)
+		}
 		pageChksum, ok := db.pageChecksum(pgno, commit, nil)
 		db.chksums.mu.Unlock()
 		if !ok {
 			return fmt.Errorf("updated page checksum not found: pgno=%d", pgno)
 		}
-		bufChksum := ltx.ChecksumPage(pgno, buf)
 		if bufChksum != pageChksum {
 			return fmt.Errorf("updated page (%d) does not match in-memory checksum: %s <> %s (⊕%s)", pgno, bufChksum, pageChksum, bufChksum^pageChksum)
 		}
